@@ -262,7 +262,7 @@ def check(ctx):
            "population correction = min of the scores that pass the filter" if ok_min else f"population correction is {ir.show(POP, maxdepth=3)}")
     if not ok_min:
         return
-    fr = POP[2][0][1]
+    fr = ir.column_ref(_arg)[0]
     while fr[0] == "call" and fr[1][0] == "attr" and fr[1][2] == "reset_index":
         fr = fr[1][1]
     # the filter: rows of the table whose cumulative weight `percent` strictly exceeds the level (query string and boolean mask are the
